@@ -260,7 +260,8 @@ def build_harness(src, flavor, log=sys.stderr, extra=None):
     gd = gen_with_probe(log)
     fl = FLAVORS[flavor]
     srcp = os.path.join(VERIF, "harness", src)
-    uses_view = '#include "view' in open(srcp).read()
+    _src = open(srcp).read()
+    uses_view = ('#include "view' in _src) or ('#include "inputs.h"' in _src)
     extra = list(extra or [])
     pre = [build_view_impl(flavor, fd, gd, log)] if uses_view else []
     deps = [srcp] + sorted(glob.glob(os.path.join(VERIF, "harness", "common", "*.h")))
